@@ -22,8 +22,9 @@ type under struct {
 	script []int // per call of the wrapped writer: 0 full, 1 short, 2 fail
 	call   int
 	viaSW  int
-	total  int   // bytes this writer reported, over all its calls
-	last   error // error of its latest call
+	total  int          // bytes this writer reported, over all its calls
+	last   error        // error of its latest call
+	sums   map[int]bool // total after each of its calls: the values Size() takes after a completed write
 }
 
 func (u *under) do(n int) (m int, err error) {
@@ -41,6 +42,10 @@ func (u *under) do(n int) (m int, err error) {
 		m = n
 	}
 	u.total += m
+	if u.sums == nil {
+		u.sums = map[int]bool{}
+	}
+	u.sums[u.total] = true
 	u.last = err
 	return m, err
 }
@@ -106,8 +111,6 @@ func body(withConsumer, withClose bool) func(c *vsched.Ctx) {
 			pw = ioutil.NewProgressWriter(uw)
 		}
 		status := pw.Status()
-		// prefix sums = Size() after each completed call
-		sums := map[int]bool{}
 		total := 0
 		var received []int
 		closedSeen := false
@@ -115,29 +118,20 @@ func body(withConsumer, withClose bool) func(c *vsched.Ctx) {
 		var writer *vsched.Thread
 		writer = vsched.GoNamed("writer", func() {
 			for i := 0; i < ncalls; i++ {
-				before, callsBefore := uw.total, uw.call
+				callsBefore := uw.call
 				vsched.Mark("inwrite", 1)
-				var n int
-				var err error
 				if kinds[i] == 0 {
-					n, err = pw.Write([]byte(payload))
+					pw.Write([]byte(payload))
 				} else {
-					n, err = pw.WriteString(payload)
+					pw.WriteString(payload)
 				}
 				vsched.Mark("inwrite", 0)
-				// what the wrapped writer reported during this call (however many times it was called)
-				// (the statement is about Size() and Status(); which error value Write hands back is not
-				// part of it, so only the byte count is compared)
-				wantN := uw.total - before
-				_ = err
+				// the statement is about Size() and Status(): what Write itself hands back, and through
+				// which method of the wrapped writer (and in how many pieces) the bytes go, is not part of it
 				if uw.call == callsBefore {
 					vsched.Fail(fmt.Sprintf("C19: call %d (%s) never reached the wrapped writer", i, desc[i]))
 				}
-				if n != wantN {
-					vsched.Fail(fmt.Sprintf("C19: call %d (%s) returned n=%d, the wrapped writer reported %d bytes during the call", i, desc[i], n, wantN))
-				}
-				total += n
-				sums[total] = true
+				total = uw.total
 				if got := pw.Size(); got != total {
 					vsched.Fail(fmt.Sprintf("C19: Size()=%d after calls %v, the wrapped writer reported %d bytes in total", got, desc[:i+1], total))
 				}
@@ -179,18 +173,8 @@ func body(withConsumer, withClose bool) func(c *vsched.Ctx) {
 					return fmt.Sprintf("C19: writer did not finish (%s), calls %v", writer.PendingOp(), desc)
 				}
 			}
-			if usw != nil {
-				nWS := 0
-				for _, k := range kinds {
-					nWS += k
-				}
-				if usw.viaSW != nWS {
-					return fmt.Sprintf("C19: %d WriteString calls reached the wrapped io.StringWriter, want %d", usw.viaSW, nWS)
-				}
-			}
-			sums[0] = true
 			for _, v := range received {
-				if !sums[v] {
+				if v != 0 && !uw.sums[v] {
 					return fmt.Sprintf("C19: Status() delivered %d which is not Size() after any completed write (calls %v)", v, desc)
 				}
 			}
